@@ -8,6 +8,21 @@ PT_CHILD_OK().  Compound: IF(env){...}else{...}, FOR(v=0;v<2;v++){...} with a pe
 IFU "if (env) STMT; [else STMT;]" and FORU "for (...) STMT;" whose body is one PT_* statement without braces.
 After every statement an effect with a unique number is emitted, so the sequence of side effects identifies
 the path taken.
+
+Two program sets are written:
+ * the MAIN set (c08_progs_<n>.c, c08_shards.h): every body up to the size bound over the full alphabet, each function
+   restarting at "#line 1";
+ * the SMALL set (c08_small_<n>.c, c08_small.h), which is cheap enough to be compiled once per build configuration and
+   holds the families that vary HOW the macros are invoked rather than what the program does:
+     b2      every body with at most 2 nodes over the full alphabet
+     shape   every condition-taking macro (PT_WAIT_UNTIL, PT_EXIT_ON, PT_FAIL_ON) with every condition form of COND_FORMS
+             (operators of each precedence class, value classes of each width) and every spawning macro with every
+             thread / child argument form of THREAD_FORMS, each in the contexts of CONTEXTS
+     ident   user locals with common names (IDENT_NAMES) used inside conditions and thread expressions
+     lines   bodies with at most 2 nodes over LINE_ATOMS placed so that the first statement sits on each line of
+             LINE_PLACEMENTS (both sides of 2^7, 2^8, 2^15, 2^16, and 100000)
+     fibre   bodies with at most 2 nodes over LINE_ATOMS opened with PT_BEGIN_FIBRE on a fibre_t
+   every file of the small set is an optional compile unit (a stand-in with an empty table is written next to it).
 """
 import itertools, os
 
@@ -19,10 +34,64 @@ CHILDREN = [
     ['XO', 'W', 'F'],           # c3 may exit at once, else waits and then fails
     [('SC', 2), 'Y'],           # c4 spawns c2 and checks it (relays a failure), then yields
     [('SO', 3), ('FOR', ['Y'])],  # c5 spawns c3 reporting PT_CHILD_OK, then a loop with a yield
+    ['EV', 'Y', 'EV', 'FO'],    # c6 takes an int argument and reports it (200 + v) before and after a yield, then may fail
 ]
+CV = 6                          # the child with a value argument; not part of the main alphabet
+NCHILD_MAIN = 6
+IDENT_VALUE = 37
 # XOd / FOd: the condition is a double (0.5 when the environment says true): any scalar is a legal condition
 SIMPLE = ['Y', 'W', 'U', 'X', 'F', 'XO', 'FO', 'XOd', 'FOd']
 SPAWNS = ['SP', 'SC', 'CA', 'SO']
+CONDMAC = {'U': ('PT_WAIT_UNTIL', 'WAIT_UNTIL'), 'XO': ('PT_EXIT_ON', 'EXIT_ON'), 'FO': ('PT_FAIL_ON', 'FAIL_ON')}
+SPAWNMAC = {'SP': 'PT_SPAWN', 'SO': 'PT_SPAWN', 'SC': 'PT_SPAWN_AND_CHECK', 'CA': 'PT_CALL'}
+
+# ---- condition forms: each is true exactly when the environment answers "true" and consumes exactly one answer.
+# Operator forms: one per precedence class, with operand values chosen so that binding a prefix / suffix of the macro
+# (!, == k, != 0, && y, a cast) to the first operand instead of the whole argument changes the truth value.
+# Value forms: the true value is one that a narrowing conversion, "== 1" or "& 1" would turn into false.
+COND_FORMS = [
+    ('i',     'E_env(E, %d)'),                                   # int 0 / 1 (the form of the main set)
+    ('ne',    '(E->tmp = E_envk(E, %d, 7, -1)) != -1'),          # equality operator, operands other than 0 / 1 (console.c style)
+    ('eq1',   'E_env(E, %d) == 1'),
+    ('ne0',   'E_env(E, %d) != 0'),
+    ('gt',    'E_envk(E, %d, 5, -5) > 0'),                       # relational
+    ('add',   'E_envk(E, %d, 1, -1) + 1'),                       # additive
+    ('band',  'E_envk(E, %d, 2, 0) & 2'),                        # bitwise and (binds less tightly than == and !=)
+    ('land',  'E_one(E) && E_env(E, %d)'),                       # logical and
+    ('lor',   'E_zero(E) || E_env(E, %d)'),                      # logical or
+    ('tern',  'E_envn(E, %d) ? 0 : 1'),                          # conditional
+    ('tern1', 'E_env(E, %d) ? 1 : 0'),
+    ('comma', '(E_nop(E), E_env(E, %d))'),                       # comma (a bare comma would be two macro arguments)
+    ('not',   '!E_envn(E, %d)'),                                 # unary
+    ('d',     'E_envd(E, %d)'),                                  # double 0.5: zero once converted to an integer type
+    ('i2',    'E_envk(E, %d, 2, 0)'),                            # int >= 2 (bit 0 clear)
+    ('i256',  'E_envk(E, %d, 256, 0)'),                          # low 8 bits zero
+    ('i64k',  'E_envk(E, %d, 65536, 0)'),                        # low 16 bits zero
+    ('neg',   'E_envk(E, %d, -1, 0)'),                           # negative
+    ('min',   'E_envk(E, %d, -2147483647 - 1, 0)'),              # only the sign bit
+    ('ll',    'E_envll(E, %d, 1LL << 32)'),                      # 64 bit, low 32 bits zero
+    ('ull',   'E_envull(E, %d, 1ULL << 63)'),                    # 64 bit, only the top bit
+    ('ptr',   'E_envp(E, %d)'),                                  # a pointer
+]
+CF = dict(COND_FORMS)
+IDENT_COND = 'E_env(E, %%d) * %s == %d'        # true iff the answer is true AND the user's local still has its value
+
+# ---- forms of the (child, thread) arguments of the spawning macros; %(pt)s = the child's pt_t, %(call)s = the plain call
+THREAD_FORMS = [
+    ('tern',  '%(pt)s', 'E_one(E) ? %(call)s : (pt_state_t)PT_FAILED'),
+    ('ternr', '%(pt)s', 'E_zero(E) ? (pt_state_t)PT_FAILED : %(call)s'),
+    ('comma', '%(pt)s', '(E_nop(E), %(call)s)'),
+    ('bor',   '%(pt)s', '%(call)s | 0'),                         # binds less tightly than the macros' "< PT_EXITED"
+    ('int',   '%(pt)s', '%(icall)s'),                            # a thread function that returns int (as fibres do)
+    ('ptadd', 'E->cpt + %(d)d', '%(call)s'),                     # child argument that is not a primary / unary expression
+]
+TF = dict((n, (p, t)) for n, p, t in THREAD_FORMS)
+SHAPE_CHILDREN = [1, 3]
+IDENT_NAMES = ['state', 'res', 'r', 'rc', 'ret', 'result', 'status', 'i', 'n', 's', 'p', 'c', 'x', 'child', 'thread',
+               'pt_state', 'pt_res', 'spawn_res', 'tmp', 'line']
+LINE_ATOMS = ['Y', 'W', 'U', 'FO', ('SP', 1), ('SC', 2), ('CA', 3), ('SO', 5)]
+LINE_PLACEMENTS = [127, 128, 255, 256, 32767, 32768, 65535, 65536, 100000]
+LINE_REQUIRED = 65535          # what the documented 16-bit pt_t holds; files by this, the harness decides from the real pt_t
 
 
 REDUCED = None   # when set: the atom list used instead of the full one (larger bodies over a smaller alphabet)
@@ -33,15 +102,19 @@ def atoms(depth_children):
         return list(REDUCED)
     a = list(SIMPLE)
     for k in SPAWNS:
-        for c in range(len(CHILDREN)):
+        for c in range(NCHILD_MAIN):
             a.append((k, c))
     return a
+
+
+def is_so(a):
+    return isinstance(a, tuple) and (a[0] == 'SO' or (a[0] == 'SPX' and a[1] == 'SO'))
 
 
 def unbraced_atoms():
     """atoms that are ONE statement in C and may therefore be the unbraced body of an if / else / for
     (SO is this generator's own two-statement composite and is left out)"""
-    return [a for a in atoms(0) if not (isinstance(a, tuple) and a[0] == 'SO')]
+    return [a for a in atoms(0) if not is_so(a)]
 
 
 def size(item):
@@ -102,6 +175,9 @@ class Emitter:
         self.code = []     # VM instructions (op, a, b)
         self.eff = 0
         self.envid = 0
+        self.blocking = []  # indices into self.c of the lines that hold a macro which stores __LINE__
+        self.ident = None   # name of the user's local (ident family)
+        self.E = 'E'
 
     def effect(self, ind):
         self.eff += 1
@@ -112,40 +188,72 @@ class Emitter:
         self.envid += 1
         return self.envid
 
+    def blk(self, text):
+        self.blocking.append(len(self.c))
+        self.c.append(text)
+
+    def cond(self, mac, form, ind):
+        """one condition-taking macro with the given argument form"""
+        e = self.env()
+        if form == 'idv':
+            expr = (IDENT_COND % (self.ident, IDENT_VALUE)) % e
+        else:
+            expr = CF[form] % e
+        line = ind + '%s(%s);' % (CONDMAC[mac][0], expr)
+        if mac == 'U':
+            self.blk(line)
+        else:
+            self.c.append(line)
+        self.code.append((CONDMAC[mac][1], e, 0))
+
+    def spawn(self, k, c, tform, ind, cdepth):
+        C, V = self.c, self.code
+        pt = '&E->cpt[%d]' % cdepth
+        if c == CV:
+            call = 'child%d(%s, E, %s)' % (c, pt, self.ident if self.ident else str(IDENT_VALUE))
+        else:
+            call = 'child%d(%s, E)' % (c, pt)
+        d = dict(pt=pt, call=call, icall='i' + call, d=cdepth)
+        if tform is None:
+            ptx, tx = pt, call
+        else:
+            ptx, tx = TF[tform][0] % d, TF[tform][1] % d
+        line = ind + '%s(%s, %s);' % (SPAWNMAC[k], ptx, tx)
+        if k == 'CA':
+            C.append(line)
+            V.append(('CALL', c, cdepth))
+            return
+        self.blk(line)
+        V.append(('SPAWN_INIT', c, cdepth)); V.append(('RUN', c, cdepth))
+        if k == 'SO':
+            # PT_CHILD_OK() may be any true value: only its truth is reported
+            C.append(ind + 'E_emit(E, PT_CHILD_OK() ? 101 : 100);'); V.append(('EMIT_OK', 0, 0))
+        elif k == 'SC':
+            V.append(('CHECK', 0, 0))
+
     def stmt(self, s, ind, loopdepth, cdepth):
         C, V = self.c, self.code
         if s == 'Y':
-            C.append(ind + 'PT_YIELD();'); V.append(('YIELD', 0, 0))
+            self.blk(ind + 'PT_YIELD();'); V.append(('YIELD', 0, 0))
         elif s == 'W':
-            C.append(ind + 'PT_WAIT();'); V.append(('WAIT', 0, 0))
-        elif s == 'U':
-            e = self.env(); C.append(ind + 'PT_WAIT_UNTIL(E_env(E, %d));' % e); V.append(('WAIT_UNTIL', e, 0))
+            self.blk(ind + 'PT_WAIT();'); V.append(('WAIT', 0, 0))
         elif s == 'X':
             C.append(ind + 'PT_EXIT();'); V.append(('EXIT', 0, 0))
         elif s == 'F':
             C.append(ind + 'PT_FAIL();'); V.append(('FAIL', 0, 0))
-        elif s == 'XO':
-            e = self.env(); C.append(ind + 'PT_EXIT_ON(E_env(E, %d));' % e); V.append(('EXIT_ON', e, 0))
-        elif s == 'FO':
-            e = self.env(); C.append(ind + 'PT_FAIL_ON(E_env(E, %d));' % e); V.append(('FAIL_ON', e, 0))
-        elif s == 'XOd':
-            e = self.env(); C.append(ind + 'PT_EXIT_ON(E_envd(E, %d));' % e); V.append(('EXIT_ON', e, 0))
-        elif s == 'FOd':
-            e = self.env(); C.append(ind + 'PT_FAIL_ON(E_envd(E, %d));' % e); V.append(('FAIL_ON', e, 0))
-        elif isinstance(s, tuple) and s[0] in SPAWNS:
-            k, c = s
-            call = 'child%d(&E->cpt[%d], E)' % (c, cdepth)
-            if k == 'SP' or k == 'SO':
-                C.append(ind + 'PT_SPAWN(&E->cpt[%d], %s);' % (cdepth, call))
-                V.append(('SPAWN_INIT', c, cdepth)); V.append(('RUN', c, cdepth))
-                if k == 'SO':
-                    C.append(ind + 'E_emit(E, 100 + PT_CHILD_OK());'); V.append(('EMIT_OK', 0, 0))
-            elif k == 'SC':
-                C.append(ind + 'PT_SPAWN_AND_CHECK(&E->cpt[%d], %s);' % (cdepth, call))
-                V.append(('SPAWN_INIT', c, cdepth)); V.append(('RUN', c, cdepth)); V.append(('CHECK', 0, 0))
-            else:
-                C.append(ind + 'PT_CALL(&E->cpt[%d], %s);' % (cdepth, call))
-                V.append(('CALL', c, cdepth))
+        elif s in ('U', 'XO', 'FO'):
+            self.cond(s, 'i', ind)
+        elif s in ('XOd', 'FOd'):
+            self.cond(s[:2], 'd', ind)
+        elif s == 'EV':
+            self.eff += 1
+            C.append(ind + 'E_emit(E, 200 + v);'); V.append(('EMIT', 200 + IDENT_VALUE, 0))
+        elif s[0] == 'COND':
+            self.cond(s[1], s[2], ind)
+        elif s[0] in SPAWNS:
+            self.spawn(s[0], s[1], None, ind, cdepth)
+        elif s[0] == 'SPX':
+            self.spawn(s[1], s[2], s[3], ind, cdepth)
         elif s[0] == 'IFU':
             e = self.env()
             C.append(ind + 'if (E_env(E, %d))' % e)
@@ -194,19 +302,34 @@ class Emitter:
             raise ValueError(s)
 
 
-def emit_function(name, body, cdepth, static=True, loopbase=0):
+def emit_function(name, body, cdepth, static=True, loopbase=0, first_line=None, ident=None, fibre=False, valarg=False):
+    """first_line: source line the first statement of the body is placed on (default: the function starts at line 1);
+    returns the emitter; em.maxline = highest source line holding a macro that stores __LINE__ (0: none)"""
     em = Emitter()
-    em.c.append('#line 1 "%s"' % name)
-    em.c.append('%spt_state_t %s(pt_t *pt, env_t *E)' % ('static ' if static else '', name))
-    em.c.append('{')
-    em.c.append('\tPT_BEGIN(pt);')
+    em.ident = ident
+    em.c.append(None)       # the #line directive, filled in below
+    if fibre:
+        em.c.append('%sint %s(fibre_t *f)' % ('static ' if static else '', name))
+        em.c.append('{')
+        em.c.append('\tenv_t *E = c08_fenv;')
+        em.c.append('\tPT_BEGIN_FIBRE(f);')
+    else:
+        em.c.append('%spt_state_t %s(pt_t *pt, env_t *E%s)' % ('static ' if static else '', name, ', int v' if valarg else ''))
+        em.c.append('{')
+        if ident:
+            em.c.append('\tint %s = %d;' % (ident, IDENT_VALUE))
+        em.c.append('\tPT_BEGIN(pt);')
     em.effect('\t')
+    before = len(em.c) - 1          # lines of the function that precede the first statement
     for s in body:
         em.stmt(s, '\t', loopbase, cdepth)
         em.effect('\t')
     em.c.append('\tPT_END();')
     em.c.append('}')
     em.code.append(('END', 0, 0))
+    start = 1 if first_line is None else first_line - before
+    em.c[0] = '#line %d "%s"' % (start, name)
+    em.maxline = max([start + (i - 1) for i in em.blocking] or [0])
     return em
 
 
@@ -221,6 +344,10 @@ def describe(body):
             out.append(s)
         elif s[0] in SPAWNS:
             out.append('%s(c%d)' % s)
+        elif s[0] == 'COND':
+            out.append('%s:%s' % (s[1], s[2]))
+        elif s[0] == 'SPX':
+            out.append('%s(c%d):%s' % (s[1], s[2], s[3]))
         elif s[0] == 'IFU':
             out.append('IFU(%s%s)' % (describe([s[1]]), '' if s[2] is None else '|' + describe([s[2]])))
         elif s[0] == 'FORU':
@@ -230,11 +357,6 @@ def describe(body):
         else:
             out.append('FOR{%s}' % describe(s[1]))
     return ';'.join(out)
-
-
-def child_depth(c):
-    """children that spawn use the next cpt slot"""
-    return 1
 
 
 def has_else_unbraced(body):
@@ -250,6 +372,59 @@ def has_else_unbraced(body):
 
 
 ELSE_SHARDS = 2
+FAMILIES = ['main', 'b2', 'shape', 'ident', 'lines', 'fibre']
+
+
+def write_children(bdir):
+    # the children as C (their own children use cpt[1], cpt[2]) ...
+    with open(os.path.join(bdir, 'c08_children.h'), 'w') as f:
+        f.write('/* generated by c08_gen.py */\n')
+        for i, body in enumerate(CHILDREN):
+            em = emit_function('child%d' % i, body, 1, loopbase=4, valarg=(i == CV))   # children keep their loop variables in v[4..]
+            f.write('\n'.join(em.c) + '\n')
+            # the same thread behind a function that returns int, the way fibre entry points do
+            f.write('#line 1 "ichild%d"\nstatic int ichild%d(pt_t *pt, env_t *E%s) { return (int)child%d(pt, E%s); }\n' %
+                    (i, i, ', int v' if i == CV else '', i, ', v' if i == CV else ''))
+        f.write('#line 1 "c08_children_end"\n')
+    # ... and as tables for the interpreter (included by the harness itself: no dependence on any optional unit)
+    with open(os.path.join(bdir, 'c08_childcode.h'), 'w') as f:
+        f.write('/* generated by c08_gen.py */\n')
+        for i, body in enumerate(CHILDREN):
+            em = emit_function('child%d' % i, body, 1, loopbase=4, valarg=(i == CV))
+            f.write('static const ins_t childcode%d[] = {%s};\n' % (i, ', '.join('{%d,%d,%d}' % (OPS.index(o[0]), o[1], o[2]) for o in em.code)))
+        f.write('static const ins_t *const c08_childcode[] = {%s};\n' % ', '.join('childcode%d' % i for i in range(len(CHILDREN))))
+        f.write('static const char *const c08_childtext[] = {%s};\n' % ', '.join('"c%d=%s"' % (i, describe(b)) for i, b in enumerate(CHILDREN)))
+
+
+def write_unit(bdir, fname, symbol, progs, base, prefix, extra_include=''):
+    """progs: list of dict(body=, fam=, text=, first_line=, ident=, fibre=); returns the list of (index, maxline)"""
+    with open(os.path.join(bdir, fname), 'w') as f:
+        f.write('/* generated by c08_gen.py: programs %d.. */\n#include "c08.h"\n%s#include "c08_children.h"\n' % (base, extra_include))
+        rows = []
+        for i, p in enumerate(progs):
+            idx = base + i
+            fib = p.get('fibre', False)
+            em = emit_function('%s%d' % (prefix, idx), p['body'], 0, first_line=p.get('first_line'), ident=p.get('ident'), fibre=fib)
+            f.write('\n'.join(em.c) + '\n')
+            f.write('#line 1 "c08_tab"\n')
+            f.write('static const ins_t %scode%d[] = {%s};\n' % (prefix, idx, ', '.join('{%d,%d,%d}' % (OPS.index(o[0]), o[1], o[2]) for o in em.code)))
+            rows.append((idx, p, em.maxline, fib))
+        f.write('const prog_t %s[] = {\n' % symbol)
+        for idx, p, ml, fib in rows:
+            fn = '%s%d' % (prefix, idx)
+            f.write(' {%s, %s, %scode%d, "%s", %d, %d},\n' % ('0' if fib else fn, fn if fib else '0', prefix, idx, p['text'], ml, FAMILIES.index(p['fam'])))
+        f.write(' {0, 0, 0, 0, 0, 0}\n};\n')
+    with open(os.path.join(bdir, fname[:-2] + '_empty.c'), 'w') as f:
+        f.write('/* stand-in for %s */\n#include "c08.h"\nconst prog_t %s[] = { {0, 0, 0, 0, 0, 0} };\n' % (fname, symbol))
+    return [(r[0], r[2]) for r in rows]
+
+
+def write_table(bdir, fname, symbols, nprogs):
+    with open(os.path.join(bdir, fname), 'w') as f:
+        for s in symbols:
+            f.write('extern const prog_t %s[];\n' % s)
+        f.write('static const prog_t *const c08_shards[] = {%s};\n' % ', '.join(symbols))
+        f.write('#define C08_NSHARDS %d\n#define C08_NPROGS %d\n' % (len(symbols), nprogs))
 
 
 def generate(bdir, max_nodes, nest, shards, extra_nodes=0):
@@ -268,17 +443,7 @@ def generate(bdir, max_nodes, nest, shards, extra_nodes=0):
             for b in bodies(n, nest):
                 progs.append(b)
         REDUCED = None
-    # header with the children (their own children use cpt[1], cpt[2])
-    with open(os.path.join(bdir, 'c08_children.h'), 'w') as f:
-        f.write('/* generated by c08_gen.py */\n')
-        # emit in dependency order: c0..c3 first (no children), then c4, c5
-        ctab = []
-        for i, body in enumerate(CHILDREN):
-            em = emit_function('child%d' % i, body, 1, loopbase=4)   # children keep their loop variables in v[4..]
-            f.write('\n'.join(em.c) + '\n')
-            f.write('#line 1 "c08_children_tab"\n')
-            f.write('static const ins_t childcode%d[] = {%s};\n' % (i, ', '.join('{%d,%d,%d}' % (OPS.index(o[0]), o[1], o[2]) for o in em.code)))
-        f.write('static const prog_t children[] = {%s};\n' % ', '.join('{child%d, childcode%d, "c%d=%s"}' % (i, i, i, describe(b)) for i, b in enumerate(CHILDREN)))
+    write_children(bdir)
     main = [b for b in progs if not has_else_unbraced(b)]
     other = [b for b in progs if has_else_unbraced(b)]
     per = (len(main) + shards - 1) // shards
@@ -286,33 +451,108 @@ def generate(bdir, max_nodes, nest, shards, extra_nodes=0):
     chunks = [(s * per, main[s * per:(s + 1) * per]) for s in range(shards)]
     chunks += [(len(main) + s * per2, other[s * per2:(s + 1) * per2]) for s in range(ELSE_SHARDS)]
     progs = main + other
-    for s in range(shards, shards + ELSE_SHARDS):
-        with open(os.path.join(bdir, 'c08_progs_%d_empty.c' % s), 'w') as f:
-            f.write('/* stand-in for c08_progs_%d.c */\n#include "c08.h"\nconst prog_t c08_shard_%d[] = { {0, 0, 0} };\n'
-                    'const prog_t *c08_shard_children_%d(void) { return 0; }\n' % (s, s, s))
     for s, (base, chunk) in enumerate(chunks):
-        with open(os.path.join(bdir, 'c08_progs_%d.c' % s), 'w') as f:
-            f.write('/* generated by c08_gen.py: programs %d.. */\n#include "c08.h"\n#include "c08_children.h"\n' % base)
-            names = []
-            for i, b in enumerate(chunk):
-                idx = base + i
-                em = emit_function('prog%d' % idx, b, 0)
-                f.write('\n'.join(em.c) + '\n')
-                f.write('#line 1 "c08_tab"\n')
-                f.write('static const ins_t code%d[] = {%s};\n' % (idx, ', '.join('{%d,%d,%d}' % (OPS.index(o[0]), o[1], o[2]) for o in em.code)))
-                names.append((idx, describe(b)))
-            f.write('const prog_t c08_shard_%d[] = {\n' % s)
-            for idx, d in names:
-                f.write(' {prog%d, code%d, "%s"},\n' % (idx, idx, d))
-            f.write(' {0, 0, 0}\n};\nconst prog_t *c08_shard_children_%d(void) { return children; }\n' % s)
-    with open(os.path.join(bdir, 'c08_shards.h'), 'w') as f:
-        for s in range(shards + ELSE_SHARDS):
-            f.write('extern const prog_t c08_shard_%d[]; const prog_t *c08_shard_children_%d(void);\n' % (s, s))
-        f.write('static const prog_t *const c08_shards[] = {%s};\n' % ', '.join('c08_shard_%d' % s for s in range(shards + ELSE_SHARDS)))
-        f.write('#define C08_NSHARDS %d\n#define C08_NPROGS %d\n' % (shards + ELSE_SHARDS, len(progs)))
+        write_unit(bdir, 'c08_progs_%d.c' % s, 'c08_shard_%d' % s, [dict(body=b, fam='main', text=describe(b)) for b in chunk], base, 'prog')
+    write_table(bdir, 'c08_shards.h', ['c08_shard_%d' % s for s in range(shards + ELSE_SHARDS)], len(progs))
     return len(progs)
+
+
+# ---------------------------------------------------------------------------------------------- the small set
+
+def contexts(a, with_else):
+    """the contexts a new atom is placed in"""
+    if with_else:
+        if not is_so(a):
+            yield [('IFU', a, 'Y')]
+            yield [('IFU', 'Y', a)]
+        return
+    yield [a]
+    yield ['Y', a]
+    yield [a, 'Y']
+    yield [('FOR', [a])]
+    if not is_so(a):
+        yield [('IFU', a, None)]
+        yield [('FORU', a)]
+
+
+def shape_atoms():
+    out = []
+    for m in ('U', 'XO', 'FO'):
+        for name, _ in COND_FORMS:
+            if name == 'i' or (name == 'd' and m != 'U'):
+                continue        # already atoms of the main alphabet (U, XO, FO, XOd, FOd)
+            out.append(('COND', m, name))
+    for k in SPAWNS:
+        for c in SHAPE_CHILDREN:
+            for name, _, _ in THREAD_FORMS:
+                out.append(('SPX', k, c, name))
+    return out
+
+
+def ident_atoms():
+    return [('COND', 'U', 'idv'), ('COND', 'XO', 'idv'), ('COND', 'FO', 'idv')] + [(k, CV) for k in SPAWNS]
+
+
+def small_bodies(alphabet, n_max):
+    global REDUCED
+    REDUCED = list(alphabet)
+    out = []
+    for n in range(1, n_max + 1):
+        out += [b for b in bodies(n, 1)]
+    REDUCED = None
+    return out
+
+
+def generate_small(bdir):
+    """returns (number of programs, list of unit file names, dict family -> count)"""
+    write_children(bdir)
+    units = []      # (file, symbol, programs, extra include, family tag)
+    # b2: every body with at most 2 nodes over the full alphabet (nothing with an unbraced else fits into 2 nodes)
+    b2 = [[]] + small_bodies(atoms(0), 2)
+    b2 = [dict(body=b, fam='b2', text=describe(b)) for b in b2]
+    half = (len(b2) + 1) // 2
+    units += [('b2', b2[:half], ''), ('b2', b2[half:], '')]
+    # shape: argument forms
+    sh = [dict(body=b, fam='shape', text=describe(b)) for a in shape_atoms() for b in contexts(a, False)]
+    half = (len(sh) + 1) // 2
+    units += [('shape', sh[:half], ''), ('shape', sh[half:], '')]
+    she = [dict(body=b, fam='shape', text=describe(b)) for a in shape_atoms() for b in contexts(a, True)]
+    units += [('shape_else', she, '')]
+    # ident: user locals with common names
+    idp = []
+    for nm in IDENT_NAMES:
+        for a in ident_atoms():
+            for b in ([a], ['Y', a], [a, 'Y']):
+                idp.append(dict(body=b, fam='ident', ident=nm, text='int %s; %s' % (nm, describe(b))))
+    units += [('ident', idp, '')]
+    # lines: placements of the first statement; filed by whether every stored line fits the documented 16-bit pt_t
+    lb = [b for b in small_bodies(LINE_ATOMS, 2)]
+    lo, hi = [], []
+    for L in LINE_PLACEMENTS:
+        for b in lb:
+            p = dict(body=b, fam='lines', first_line=L, text='@%d %s' % (L, describe(b)))
+            em = emit_function('x', b, 0, first_line=L)
+            (lo if em.maxline <= LINE_REQUIRED else hi).append(p)
+    half = (len(lo) + 1) // 2
+    units += [('lines', lo[:half], ''), ('lines', lo[half:], ''), ('lines_beyond', hi, '')]
+    # fibre: PT_BEGIN_FIBRE
+    fb = [dict(body=b, fam='fibre', fibre=True, text='fibre %s' % describe(b)) for b in [[]] + lb]
+    units += [('fibre', fb, '#include <librfn/fibre.h>\n')]
+    base, files, fams, diag_files = 0, [], {}, []
+    for k, (tag, progs, inc) in enumerate(units):
+        fname = 'c08_small_%d.c' % k
+        write_unit(bdir, fname, 'c08_small_%d' % k, progs, base, 'sp', inc)
+        files.append((fname, tag, len(progs)))
+        if tag != 'lines_beyond':
+            diag_files.append(fname)
+        for p in progs:
+            fams[p['fam']] = fams.get(p['fam'], 0) + 1
+        base += len(progs)
+    write_table(bdir, 'c08_small.h', ['c08_small_%d' % k for k in range(len(units))], base)
+    return base, files, fams, diag_files
 
 
 if __name__ == '__main__':
     import sys
     print(generate(sys.argv[1], int(sys.argv[2]), int(sys.argv[3]), int(sys.argv[4])))
+    print(generate_small(sys.argv[1])[:3])
